@@ -1,17 +1,17 @@
 #!/bin/sh
 # Offline setup: nothing to build; verify the tools and that every specification parses.
-set -e
 cd "$(dirname "$0")"
-command -v java >/dev/null
-test -f /opt/veriftools/tla/tla2tools.jar
-/venv/bin/python -c "import sys; sys.path.insert(0,'/repo'); import rich"
+command -v java >/dev/null || { echo "no java"; exit 1; }
+test -f /opt/veriftools/tla/tla2tools.jar || { echo "no tla2tools"; exit 1; }
+/venv/bin/python -c "import sys; sys.path.insert(0,'/repo'); import rich" || exit 1
 mkdir -p .work evidence replays
 rm -rf .work/*
 fail=0
 for f in specs/MC_*.tla specs/Trace_*.tla; do
   [ -f "$f" ] || continue
-  ( cd specs && java -cp /opt/veriftools/tla/tla2tools.jar:/opt/veriftools/tla/CommunityModules-deps.jar tla2sany.SANY "$(basename "$f")" >/tmp/sany.$$ 2>&1 ) || { cat /tmp/sany.$$; fail=1; }
-  if grep -q "Semantic errors\|Parse Error\|Fatal errors" /tmp/sany.$$; then echo "SANY: $f"; cat /tmp/sany.$$; fail=1; fi
+  out=$(cd specs && java -cp /opt/veriftools/tla/tla2tools.jar:/opt/veriftools/tla/CommunityModules-deps.jar tla2sany.SANY "$(basename "$f")" 2>&1)
+  if echo "$out" | grep -q "Semantic errors\|Parse Error\|Fatal errors\|Could not"; then
+    echo "SANY: $f"; echo "$out" | grep -m1 -A6 "Errors\|Parse Error\|Fatal\|Could not"; fail=1
+  fi
 done
-rm -f /tmp/sany.$$
 exit $fail
